@@ -923,6 +923,28 @@ def gen_off_note():
     return g
 
 
+def gen_grace_top():
+    """a part (not the last) whose highest voice and/or staff is used by grace notes only: the voice/staff
+    offsets of the following parts must still clear it"""
+    def g():
+        k = 0
+        for gv, gs in ((2, 1), (3, 1), (1, 2), (2, 2), (4, 3)):
+            for nparts in (2, 3):
+                for which in range(nparts - 1):
+                    for mode in MODES:
+                        k += 1
+                        ds = ((2, 3, 4), (4, 6, 3), (1, 1, 1))[k % 3][:nparts]
+                        parts = []
+                        for i in range(nparts):
+                            objs = base_notes(i, ds[i])
+                            if i == which:
+                                objs = objs + [{"k": "grace", "id": "p%dg0" % i, "s": 1, "e": 1, "step": "A", "oct": 4, "voice": gv, "staff": gs,
+                                                "gtype": "acciaccatura", "next": M.pid_note(i, 1)}]
+                            parts.append(part_spec(i, ds[i], objs))
+                        yield mk("list", mode, parts, "grace-top:v%d:s%d:p%d" % (gv, gs, which))
+    return g
+
+
 def loader_content(i, d, v):
     """complete 4/4 measures (so that the file has no pickup), off-quarter joints, distinct ids"""
     n = lambda j: M.pid_note(i, j)
@@ -993,6 +1015,8 @@ def spaces(tier, seed):
     sp.append(Space("noteless-part", gen_noteless(), True,
                     "one part without notes (empty, rest, rest without staff, words, structure only) at every position of 2 and 3 parts "
                     "x 3 modes, divisions triple cycled over 3"))
+    sp.append(Space("grace-top-voice", gen_grace_top(), True,
+                    "2-3 parts x a non-last part whose highest voice/staff (5 (voice, staff) choices) is used by a grace note only x 3 modes"))
     sp.append(Space("off-note-voices", gen_off_note(), True,
                     "7 kinds of element in a voice/staff that no pitched note of its part uses x carried by first, second or both "
                     "parts x 3 modes, divisions pair cycled over 2"))
